@@ -406,6 +406,7 @@ pub fn run<P: Property>(tier: Tier) -> i32 {
             inconclusive = Some(m);
         }
         let mut ex = Exec::new(&prop, tier);
+        let mut not_reproduced = 0usize;
         for case in &extra.cases {
             match ex.exec(case) {
                 Err(Inconclusive(m)) => {
@@ -414,6 +415,9 @@ pub fn run<P: Property>(tier: Tier) -> i32 {
                 }
                 Ok(o) => {
                     total.absorb(&o);
+                    if o.fail.is_none() {
+                        not_reproduced += 1;
+                    }
                     if let Some(fl) = &o.fail {
                         if let Some(k) = known::matching(&known, P::ID, fl) {
                             *observed_known.entry(k.what.clone()).or_insert(0) += 1;
@@ -430,6 +434,11 @@ pub fn run<P: Property>(tier: Tier) -> i32 {
                     }
                 }
             }
+        }
+        // a fuzzer artifact (crash, OOM, timeout) that the release harness cannot reproduce is
+        // neither a pass nor a violation
+        if not_reproduced > 0 && violation.is_none() && inconclusive.is_none() {
+            inconclusive = Some(format!("{not_reproduced} libFuzzer artifact(s) (crash / out-of-memory / timeout in the ASan build) do not reproduce as a violation in the release harness - see the fuzz notes in the evidence and /verif/fuzz/work"));
         }
     }
 
